@@ -180,8 +180,12 @@ func condCheck(call string, n int, rcond, anorm, ainvNorm, growth float64) *vk.F
 		vk.Class("cond:exact")
 	case ratio <= 3:
 		vk.Class("cond:within3")
+	case ratio <= 10:
+		vk.Class("cond:within10")
+	case ratio <= float64(max(n, 1)):
+		vk.Class("cond:within-n")
 	default:
-		vk.Class("cond:worse-than-3")
+		vk.Class("cond:worse-than-max(10,n)")
 	}
 	if ratio > 10*float64(max(n, 1))*(1+delta) {
 		return vk.Failf("rcond-too-optimistic", "%s: n=%d rcond=%v exceeds 10*n times the true value %v", call, n, rcond, truth)
